@@ -35,6 +35,30 @@ pub fn is_block_expr(expr: &Expr) -> bool {
 }
 
 ///
+/// Returns `true` if expr binds weaker than a method call (`-a`, `a + b`, `a as T`, `a..b`, `&a`, `|a| b` etc.), so it has
+/// to be parenthesized before any combinator is applied to it.
+///
+pub fn is_weaker_than_method_call(expr: &Expr) -> bool {
+    matches!(
+        expr,
+        Expr::Assign(_)
+            | Expr::AssignOp(_)
+            | Expr::Binary(_)
+            | Expr::Box(_)
+            | Expr::Break(_)
+            | Expr::Cast(_)
+            | Expr::Closure(_)
+            | Expr::Let(_)
+            | Expr::Range(_)
+            | Expr::Reference(_)
+            | Expr::Return(_)
+            | Expr::Type(_)
+            | Expr::Unary(_)
+            | Expr::Yield(_)
+    )
+}
+
+///
 /// Parses input `ParseStream` until one of provided `GroupDeterminer`'s check will be valid or it reaches end.
 ///
 pub fn parse_until<'a, T: Parse + Clone + Debug>(
